@@ -505,7 +505,7 @@ func idleShutdown(t *testing.T, stats *core.Stats, i int) {
 // lonely: one client, one request at a time, on a server that is otherwise idle (and has been idle for several
 // signal timeouts before): production api + aio + sqlite store subsystem (batch size 10, its worker collects a batch
 // until it is flushed) + Loop. Nothing but the loop's own periodic wake-up comes to the rescue of a submission that
-// sits in a partially collected batch, so every single request must still be answered (here: within 3 s, the signal
+// sits in a partially collected batch, so every single request must still be answered (here: within 10 s, the signal
 // timeout being 10 ms).
 func lonely(t *testing.T, stats *core.Stats, n int) {
 	m := metrics.New(prometheus.NewRegistry())
@@ -541,8 +541,8 @@ func lonely(t *testing.T, stats *core.Stats, n int) {
 			if time.Since(t0) > 5*time.Millisecond {
 				late++
 			}
-		case <-time.After(3 * time.Second):
-			msg := fmt.Sprintf("request %d of a single sequential client on an otherwise idle server (sqlite store subsystem with batch size 10, signal timeout 10 ms) was accepted but not answered within 3 s", i)
+		case <-time.After(10 * time.Second):
+			msg := fmt.Sprintf("request %d of a single sequential client on an otherwise idle server (sqlite store subsystem with batch size 10, signal timeout 10 ms) was accepted but not answered within 10 s", i)
 			core.SaveFailure("last", map[string]any{"violation": msg})
 			t.Fatalf("VIOLATION C12 %s", msg)
 		}
